@@ -371,7 +371,8 @@ def run_traced(spec, fault=None, gp_faults=None, predict_faults=None, ei_script=
                                             "search_grid_multiplier", "search_grid_number", "accelerate_mesh", "accelerate_mesh_steps", "skip_poll_after_search",
                                             "complete_poll", "noise_final_samples", "fun_eval_start", "sloppy_improvement", "improvement_quantile", "stobads",
                                             "search_size_locked", "search_mesh_expand", "poll_mesh_multiplier", "init_mesh_size_integer", "n_search", "n_search_iter",
-                                            "final_quantile", "n_train_max", "n_train_min", "buffer_ntrain", "gp_radius", "specify_target_noise", "hedge_gamma", "cache_size")}}
+                                            "final_quantile", "n_train_max", "n_train_min", "buffer_ntrain", "gp_radius", "specify_target_noise", "hedge_gamma", "cache_size",
+                                            "force_poll_mesh", "nonlinear_scaling")}}
             res = b.optimize()
             tr["result"] = {k: (_f(res[k]) if k in ("x", "x0", "fval", "fsd", "mesh_size", "yval_vec", "ysd_vec") and res[k] is not None else
                                 (res[k] if isinstance(res[k], (int, float, str, bool, type(None))) else repr(type(res[k]))))
@@ -429,7 +430,7 @@ def _install_gp_wrappers(patch, state, ev, bb, gpt, es, gp_faults):
     def w_ggsn(function_logger, u, gp, options, optim_state):
         r = o_ggsn(function_logger, u, gp, options, optim_state)
         fl = function_logger
-        n = fl.X_max_idx + 1
+        n = fl.Xn + 1            # every recorded row (X_max_idx is the implementation's own bookkeeping of the same number)
         from pybads.search.grid_functions import udist
         dist = udist(fl.X[:n], u, gp.temporary_data["len_scale"], optim_state["lb"], optim_state["ub"], optim_state["scale"], optim_state["periodic_vars"])
         dist = np.min(dist, axis=1) if dist.ndim > 1 else dist
@@ -438,7 +439,7 @@ def _install_gp_wrappers(patch, state, ev, bb, gpt, es, gp_faults):
              "n_min": _f(options["n_train_min"]), "n_max": _f(options["n_train_max"]), "buffer": _f(options["buffer_ntrain"]),
              "X": _rows(r[0]), "Y": _vec(r[1]), "S": None if r[2] is None else _vec(r[2]), "noise_flag": bool(fl.noise_flag),
              "logX": _rows(fl.X[:n]), "logY": _vec(fl.Y[:n]), "logS": _vec(fl.S[:n]) if fl.noise_flag else None,
-             "phase": state["phase"][-1], "len_scale": _f(gp.temporary_data["len_scale"])}
+             "phase": state["phase"][-1], "len_scale": _f(gp.temporary_data["len_scale"]), "x_max_idx": int(fl.X_max_idx)}
         ev.append(("NEIGH", e))
         return r
 
